@@ -286,11 +286,13 @@ func (e *Env) LifetimeOracle() []Finding {
 			if c.Outcome != "ok" {
 				continue
 			}
+			delivered := 0
 			for _, in := range c.Outs {
-				if len(ho[in]) == 0 && in.Out == 0 && !e.inFailedOp(c) {
-					out = append(out, Finding{feat("clause", "transient-constructed-not-delivered", "form", regForm(r)),
-						fmt.Sprintf("transient %s constructed (%s) but never handed to a request site", r, in.Label())})
-				}
+				delivered += len(ho[in])
+			}
+			if delivered == 0 && len(c.Outs) > 0 && !e.inFailedOp(c) {
+				out = append(out, Finding{feat("clause", "transient-constructed-not-delivered", "form", regForm(r)),
+					fmt.Sprintf("transient %s constructed (%s) but none of its outputs was handed to a request site", r, c.Outs[0].Label())})
 			}
 		}
 	}
